@@ -110,8 +110,15 @@ impl Drop for PendingRequestGuard {
             return;
         }
 
+        #[cfg(feature = "verif-hooks")]
+        crate::verif_hooks::probe("guard.before_remove", self.request_id);
         let mut pending = lock_pending_map(&self.inner.pending);
         pending.remove(&self.request_id);
+        #[cfg(feature = "verif-hooks")]
+        {
+            drop(pending);
+            crate::verif_hooks::probe("guard.after_remove", self.request_id);
+        }
     }
 }
 
@@ -658,6 +665,10 @@ impl AsyncClient {
 
         let (sender, receiver) = oneshot::channel();
         let mut pending_guard = PendingRequestGuard::register(&self.inner, id, sender)?;
+        #[cfg(feature = "verif-hooks")]
+        crate::verif_hooks::probe("client.after_register", id);
+        #[cfg(feature = "verif-hooks")]
+        crate::verif_hooks::probe("client.before_write", id);
 
         self.write_request(&msg).await?;
 
@@ -817,6 +828,10 @@ impl AsyncClient {
         let request_id = msg.header.id;
         let (sender, receiver) = oneshot::channel();
         let mut pending_guard = PendingRequestGuard::register(&self.inner, request_id, sender)?;
+        #[cfg(feature = "verif-hooks")]
+        crate::verif_hooks::probe("client.after_register", request_id);
+        #[cfg(feature = "verif-hooks")]
+        crate::verif_hooks::probe("client.before_write", request_id);
 
         self.write_request(msg).await?;
 
@@ -889,15 +904,31 @@ fn spawn_response_loop(
                 }
             };
 
+            #[cfg(feature = "verif-hooks")]
+            match &dispatch {
+                PendingDispatch::Matched { response, .. } => {
+                    crate::verif_hooks::probe("reader.after_match", response.header.id)
+                }
+                PendingDispatch::Unrecognized { got_id } => {
+                    crate::verif_hooks::probe("reader.unmatched", *got_id)
+                }
+            }
+
             match dispatch {
                 PendingDispatch::Matched { sender, response } => {
+                    #[cfg(feature = "verif-hooks")]
+                    crate::verif_hooks::probe("reader.before_deliver", response.header.id);
                     let _ = sender.send(Ok(response));
                 }
                 PendingDispatch::Unrecognized { got_id } => {
                     eprintln!("[repe] dropping response for unrecognized request id {got_id}");
                 }
             }
+            #[cfg(feature = "verif-hooks")]
+            crate::verif_hooks::probe("reader.after_dispatch", 0);
         }
+        #[cfg(feature = "verif-hooks")]
+        crate::verif_hooks::probe("reader.exit", 0);
     });
 }
 
@@ -911,20 +942,32 @@ async fn fail_all_pending(inner: &std::sync::Weak<AsyncClientInner>, err: RepeEr
     // long as the stall lasts. Marking the connection failed in the same
     // critical section as the drain is what makes that order safe: a call that
     // registers afterwards is refused instead of waiting for a reply.
+    #[cfg(feature = "verif-hooks")]
+    crate::verif_hooks::probe("failall.enter", 0);
     let waiters = {
         let mut pending = lock_pending_map(&inner_ref.pending);
         inner_ref.failed.store(true, Ordering::Relaxed);
         pending.drain().collect::<Vec<_>>()
     };
+    #[cfg(feature = "verif-hooks")]
+    crate::verif_hooks::probe("failall.after_drain", waiters.len() as u64);
 
     for (request_id, sender) in waiters {
+        #[cfg(feature = "verif-hooks")]
+        crate::verif_hooks::probe("failall.before_send", request_id);
         let _ = sender.send(Err(clone_fatal_error_for_waiter(&err, request_id)));
+        #[cfg(feature = "verif-hooks")]
+        crate::verif_hooks::probe("failall.after_send", request_id);
     }
 
     {
         let mut writer = inner_ref.writer.lock().await;
         let _ = writer.io.shutdown().await;
     }
+    #[cfg(feature = "verif-hooks")]
+    crate::verif_hooks::probe("failall.after_shutdown", 0);
+    #[cfg(feature = "verif-hooks")]
+    crate::verif_hooks::probe("failall.done", 0);
 }
 
 fn clone_fatal_error_for_waiter(err: &RepeError, request_id: u64) -> RepeError {
